@@ -197,6 +197,9 @@ def main(argv):
         pm["wall_s"] = max(pm["wall_s"], round(r["wall"], 2))
         if r["rc"] == "timeout":
             return machinery_error("part %s shard %d timed out (log %s)" % (part["name"], r["shard"], r["log"]))
+        if r["rc"] == 2:  # the harness itself reports a failure of the machinery (never a violation)
+            tail = open(r["log"]).read()[-600:] if os.path.exists(r["log"]) else ""
+            return machinery_error("harness %s shard %d reported a machinery failure: %s" % (part["name"], r["shard"], tail.replace("\n", " / ")))
         if res is None or r["rc"] != 0:
             crashes.append((part, r))
             continue
